@@ -173,17 +173,17 @@ impl<T: NodeProcessor + Scope> NodeVisitor<T> for ScopeVisitor {
             .iter_mut_expressions()
             .for_each(|expression| Self::visit_expression(expression, scope));
 
-        scope.push();
-        statement
-            .iter_mut_identifiers()
-            .for_each(|identifier| scope.insert(identifier.mutate_name()));
-
         for r#type in statement
             .iter_mut_identifiers()
             .filter_map(TypedIdentifier::mutate_type)
         {
             Self::visit_type(r#type, scope);
         }
+
+        scope.push();
+        statement
+            .iter_mut_identifiers()
+            .for_each(|identifier| scope.insert(identifier.mutate_name()));
 
         scope.process_scope(statement.mutate_block(), None);
 
@@ -387,17 +387,17 @@ impl<T: NodeProcessor + NodePostProcessor + Scope> NodePostVisitor<T> for ScopeP
             .iter_mut_expressions()
             .for_each(|expression| Self::visit_expression(expression, scope));
 
-        scope.push();
-        statement
-            .iter_mut_identifiers()
-            .for_each(|identifier| scope.insert(identifier.mutate_name()));
-
         for r#type in statement
             .iter_mut_identifiers()
             .filter_map(TypedIdentifier::mutate_type)
         {
             Self::visit_type(r#type, scope);
         }
+
+        scope.push();
+        statement
+            .iter_mut_identifiers()
+            .for_each(|identifier| scope.insert(identifier.mutate_name()));
 
         scope.process_scope(statement.mutate_block(), None);
 
